@@ -200,9 +200,24 @@ def split_if(s):
     return ast.fix_missing_locations(chain)
 
 
+def _lookups_by(stmts, var):
+    for s in stmts:
+        for n in ast.walk(s):
+            if isinstance(n, ast.Subscript) and isinstance(n.value, ast.Dict) and isinstance(n.slice, ast.Name) and n.slice.id == var:
+                return True
+    return False
+
+
 class _Splitter(ast.NodeTransformer):
     def visit_If(self, node):
         self.generic_visit(node)
+        # inside `if V == 'lit':` V is known: table lookups by V and tests on V are folded
+        t = node.test
+        if isinstance(t, ast.Compare) and len(t.ops) == 1 and isinstance(t.ops[0], ast.Eq) and isinstance(t.left, ast.Name) and isinstance(t.comparators[0], ast.Constant) and isinstance(t.comparators[0].value, str):
+            var, lit = t.left.id, t.comparators[0].value
+            if not _rebinds(node.body, var) and (_lookups_by(node.body, var) or _decides_on(node.body, var)):
+                node.body = specialise(node.body, var, lit) or [ast.copy_location(ast.Pass(), node)]
+                ast.fix_missing_locations(node)
         return split_if(node)
 
 
